@@ -197,8 +197,12 @@ Definition all_tuples (b : wbody) : list tuple :=
 
 (* anything the reader does not refuse with ValueError at the gate has the right keyword, the
    right nesting depth, and 2..4 numbers in every coordinate *)
+(* nesting depths a reader accepts: the one of its type, and for MULTIPOINT also the OGC form with
+   one parenthesised coordinate per point (repair D41) *)
+Definition depth_ok (t : wtag) (d : nat) : Prop := d = depth_of t \/ (t = TMPoint /\ d = 2%nat).
+
 Lemma gate_inv : forall t w, gate t w = true ->
-  w_tag w = Some t /\ body_depth (w_body w) = depth_of t /\
+  w_tag w = Some t /\ depth_ok t (body_depth (w_body w)) /\
   Forall (fun c => (2 <= length c <= 4)%nat) (all_tuples (w_body w)).
 Proof.
   intros t w. unfold gate. destruct (w_tag w) as [t'|]; [|discriminate].
@@ -214,11 +218,15 @@ Proof.
   { intros l Hl. rewrite forallb_forall in Hl. apply Forall_forall. intros c Hc.
     apply in_concat in Hc as (r & Hr & Hc). specialize (Hl r Hr). apply andb_true_iff in Hl as [_ Hl].
     rewrite forallb_forall in Hl. apply A, Hl, Hc. }
-  destruct t; destruct (w_body w) as [l|l|l]; try discriminate; intros H; (split; [reflexivity|]); (split; [reflexivity|]); cbn [all_tuples].
+  destruct t; destruct (w_body w) as [l|l|l]; try discriminate; intros H; (split; [reflexivity|]);
+    (split; [first [left; reflexivity | right; split; reflexivity]|]); cbn [all_tuples].
   - destruct l as [|c [|? ?]]; try discriminate. constructor; [apply A; exact H|constructor].
   - apply andb_true_iff in H as [_ H]. apply F1, H.
   - apply andb_true_iff in H as [_ H]. apply F2, H.
   - apply andb_true_iff in H as [_ H]. apply F1, H.
+  - apply andb_true_iff in H as [_ H]. rewrite forallb_forall in H. apply Forall_forall. intros c Hc.
+    apply in_concat in Hc as (r & Hr & Hc). specialize (H r Hr).
+    destruct r as [|c0 [|? ?]]; try discriminate. destruct Hc as [<-|[]]. apply A, H.
   - apply andb_true_iff in H as [_ H]. apply F2, H.
   - apply andb_true_iff in H as [_ H]. rewrite forallb_forall in H. apply Forall_forall. intros c Hc.
     apply in_concat in Hc as (r & Hr & Hc). apply in_concat in Hr as (p & Hp & Hr).
@@ -237,10 +245,31 @@ Proof.
 Qed.
 
 Lemma wrong_depth_rejected : forall half t w,
-  body_depth (w_body w) <> depth_of t -> read half t w = Err ValueError.
+  ~ depth_ok t (body_depth (w_body w)) -> read half t w = Err ValueError.
 Proof.
   intros half t w Hn. apply read_gate. destruct (gate t w) eqn:G; [|reflexivity].
   exfalso. destruct (gate_inv _ _ G) as (_ & D & _). contradiction.
+Qed.
+
+(* the OGC multipoint form reads as the flat form does: one parenthesised coordinate per point *)
+Lemma multipoint_nested_reads : forall half zm up (ts : list tuple),
+  read half TMPoint (mkwkt (Some TMPoint) up zm (W2 (map (fun t => [t]) ts))) =
+  read half TMPoint (mkwkt (Some TMPoint) up zm (W1 ts)).
+Proof.
+  intros half zm up ts. unfold read, gate. cbn [w_tag w_body w_zm wtag_eqb andb].
+  assert (G : forallb (fun r : list tuple => match r with [c] => arity_ok c | _ => false end) (map (fun t => [t]) ts)
+              = forallb arity_ok ts).
+  { induction ts as [|t ts IH]; cbn; [reflexivity|]. rewrite IH. reflexivity. }
+  assert (N : nonempty (map (fun t : tuple => [t]) ts) = nonempty ts) by (destruct ts; reflexivity).
+  rewrite G, N. destruct (nonempty ts && forallb arity_ok ts); [|reflexivity].
+  unfold parse_body.
+  assert (M : mapR (mapR (coord_of zm)) (map (fun t => [t]) ts) =
+              match mapR (coord_of zm) ts with Ok l => Ok (map (fun c => [c]) l) | Err e => Err e end).
+  { clear G N. induction ts as [|t ts IH]; cbn [map mapR]; [reflexivity|].
+    destruct (coord_of zm t) as [c|e]; [|reflexivity].
+    rewrite IH. destruct (mapR (coord_of zm) ts); reflexivity. }
+  rewrite M. destruct (mapR (coord_of zm) ts) as [l|e]; [|reflexivity].
+  cbn [assemble]. f_equal. f_equal. clear. induction l as [|c l IH]; cbn [map concat app]; [reflexivity|]. rewrite IH. reflexivity.
 Qed.
 
 (* ---------- shapes without a WKT type write the WKT of their polygon form ---------- *)
@@ -317,4 +346,14 @@ Lemma char_level_examples :
   from_wkt_chars TLine (chars "POINT(1.0 2.0)") = inr (Err ValueError) /\
   parse_wkt_chars (chars "point(1.0 2.0)") = inr (Err ValueError) /\
   from_wkt_chars TPoint (chars "POINT(1.0 2.0") = inr (Err ValueError).
+Proof. vm_compute. repeat split; reflexivity. Qed.
+
+(* regression for repair D41 (character level): the text Shapely 2 writes for a MultiPoint *)
+Lemma multipoint_nested_chars :
+  from_wkt_chars TMPoint (chars "MULTIPOINT ((0.5 1.0), (2.0 3.5))") =
+  from_wkt_chars TMPoint (chars "MULTIPOINT(0.5 1.0, 2.0 3.5)") /\
+  from_wkt_chars TMPoint (chars "MULTIPOINT Z ((0.5 1.0 7.0), (2.0 3.5 8.0))") =
+  inr (Ok (GMPoint [mkc 5 10 (Some 70); mkc 20 35 (Some 80)], -1)) /\
+  from_wkt_chars TMPoint (chars "MULTIPOINT((0.5 1.0, 2.0 3.5))") = inr (Err ValueError) /\
+  parse_wkt_chars (chars "MULTIPOINT ((0.5 1.0), (2.0 3.5))") = from_wkt_chars TMPoint (chars "MULTIPOINT(0.5 1.0, 2.0 3.5)").
 Proof. vm_compute. repeat split; reflexivity. Qed.
